@@ -102,9 +102,18 @@ def gen_model(rng):
         k = rng.randint(1, min(4, nb))
         prods.append({"terms": sorted(rng.sample(range(nb), k)),
                       "w": rng.choice([0.5, 1, 1.5, -0.5, -1])})
-    return {"bins": names, "errs": errs, "card": card, "order": order, "lin": lin, "prods": prods,
-            "ge_first": rng.random() < 0.5,
-            "gap": rng.choice([0, 0, 0.1, 0.5]), "limit": rng.choice([None, None, None, 1, 2, 3])}
+    m = {"bins": names, "errs": errs, "card": card, "order": order, "lin": lin, "prods": prods,
+         "ge_first": rng.random() < 0.5,
+         "gap": rng.choice([0, 0, 0.1, 0.5]), "limit": rng.choice([None, None, None, 1, 2, 3])}
+    if rng.random() < 0.3:
+        # the same expression written another way: a coefficient of 2 as two entries of the sum, and a constant
+        # carried by every penalty term
+        m["dup_terms"] = True
+        m["lin_const"] = rng.choice([0, 0.25, 0.5])
+    if rng.random() < 0.25:
+        # a general integer variable ("copies in the background", 0..3) in one of the equations
+        m["zint"] = {"err": rng.randrange(len(errs)), "ub": 3, "pen": rng.choice([0.05, 0.3, 0.7])}
+    return m
 
 
 def tie_block():
@@ -321,15 +330,23 @@ def _intended(m, b):
         if b[i] > b[j]:
             return None
     neg = sum(-p["w"] for p in m["prods"] if p["w"] < 0)
-    obj = neg
-    for e in m["errs"]:
-        v = e["target"] - sum(c * b[int(j)] for j, c in e["coefs"].items())
-        obj += e["w"] * abs(v)
-    for j, pen in m["lin"].items():
-        obj += pen * b[int(j)]
-    for p in m["prods"]:
-        obj += p["w"] * int(all(b[j] for j in p["terms"]))
-    return obj
+    z = m.get("zint")
+    best = None
+    for zv in range((z["ub"] + 1) if z else 1):
+        obj = neg
+        for i, e in enumerate(m["errs"]):
+            v = e["target"] - sum(c * b[int(j)] for j, c in e["coefs"].items())
+            if z and i == z["err"]:
+                v -= zv
+            obj += e["w"] * abs(v)
+        if z:
+            obj += z["pen"] * zv
+        for j, pen in m["lin"].items():
+            obj += pen * b[int(j)] + m.get("lin_const", 0)
+        for p in m["prods"]:
+            obj += p["w"] * int(all(b[j] for j in p["terms"]))
+        best = obj if best is None else min(best, obj)
+    return best
 
 
 def _build(m):
@@ -344,7 +361,14 @@ def _build(m):
         v = M.addVar(lb=-M.INF, ub=M.INF, name=e["name"])
         E.append(v)
         coeffs[M.varName(v)] = e["w"]
-        expr = M.quicksum(c * B[int(j)] for j, c in e["coefs"].items())
+        if m.get("dup_terms"):
+            expr = M.quicksum([B[int(j)] for j, c in e["coefs"].items() for _ in range(int(c))])
+        else:
+            expr = M.quicksum(c * B[int(j)] for j, c in e["coefs"].items())
+        if m.get("zint") and m["zint"]["err"] == len(E) - 1:
+            Z = M.addVar(vtype="I", lb=0, ub=m["zint"]["ub"], name="Z_bg")
+            expr = expr + Z
+            zterm = m["zint"]["pen"] * Z
         if m.get("ge_first"):
             M.addConstr(expr + v >= e["target"], name=f"C_{e['name']}")
             M.addConstr(expr + v <= e["target"], name=f"C_{e['name']}")
@@ -365,7 +389,12 @@ def _build(m):
         M.addConstr(B[i] <= B[j], name=f"CORD_{i}_{j}")
     o_abs = M.abssum(E, coeffs=coeffs)
     obj = o_abs
-    obj += M.quicksum(pen * B[int(j)] for j, pen in m["lin"].items()) if m["lin"] else 0
+    if m.get("zint"):
+        obj += zterm
+    if m["lin"] and m.get("lin_const") is not None and m.get("dup_terms"):
+        obj += M.quicksum([pen * B[int(j)] + m["lin_const"] for j, pen in m["lin"].items()])
+    else:
+        obj += M.quicksum(pen * B[int(j)] for j, pen in m["lin"].items()) if m["lin"] else 0
     P = []
     for pi, p in enumerate(m["prods"]):
         res = M.addVar(vtype="B", name=f"MUL_{pi}")
@@ -454,7 +483,7 @@ def _run_enum(m, table, mode, viol, unsound, stats, sample=None):
         truabs = sum(e["w"] * abs(e["target"] - sum(c * b[int(j)] for j, c in e["coefs"].items()))
                      for e in m["errs"])
         stats["helper_checks"] += 1
-        if abs(M.getValue(o_abs) - truabs) > TOL:
+        if not m.get("zint") and abs(M.getValue(o_abs) - truabs) > TOL:
             viol.append({"clause": "absolute-value helper differs from the sum of absolute values at an optimum",
                          "detail": dict(d, helper=M.getValue(o_abs), true=truabs)})
         for j, v in enumerate(B):
@@ -572,7 +601,7 @@ def _two_phase(m, viol, stats):
     existing one, with its own penalty; then it is enumerated again.  Judged against the final model."""
     import aldy.lpinterface as lpi
 
-    if m["prods"] or len(m["bins"]) < 2 or len(set(m["bins"])) != len(m["bins"]):
+    if m["prods"] or len(m["bins"]) < 2 or len(set(m["bins"])) != len(m["bins"]) or m.get("lin_const") or m.get("zint"):
         return 0
     base = dict(m, bins=m["bins"][:-1])
     last = len(m["bins"]) - 1
